@@ -385,7 +385,7 @@ func ingWorld(plus bool, variant string) *World {
 		a["nginx.org/proxy-read-timeout"] = "20s"
 		a["nginx.org/proxy-send-timeout"] = "21s"
 		a["nginx.org/proxy-hide-headers"] = "X-Powered-By,Server"
-		a["nginx.org/proxy-pass-headers"] = "Date, X-Pass"
+		a["nginx.org/proxy-pass-headers"] = "Date,X-Pass"
 		a["nginx.org/proxy-set-headers"] = "X-Forwarded-ABC,X-Val: abc"
 		a["nginx.org/client-max-body-size"] = "4m"
 		a["nginx.org/redirect-to-https"] = "true"
